@@ -29,7 +29,7 @@ func init() {
 			"duplicate a segment, prefix/suffix junk, keyword case change, bit flip, invalid UTF-8, NUL, quotes, 64 KiB line, purely random bytes) with PID token in {digits, empty, 0, negative, non-numeric, huge}; " +
 			"each line is written to the simulated FIFO (taped chunking) and the pipeline run to quiescence before the next; a valid line follows at the end; " +
 			"non-trivial = at least one corrupted line still produced an event or at least two corruption kinds fired; distinct = distinct (lines hash, schedule hash)",
-		Quick: 4000, Thorough: 200000,
+		Quick: 8000, Thorough: 300000,
 	})
 }
 
